@@ -17,7 +17,8 @@ use serde::{forward_to_deserialize_any, Deserialize};
 #[derive(Clone, Copy)]
 struct Param {
     alg: i32,
-    /// 0: "public-key", 1: "public-kez" (unknown type of the same length), 2: a 33-byte type string (one beyond the capacity)
+    /// 0: "public-key", 1: "public-kez" (unknown type of the same length), 2: a 33-byte type string (one beyond the capacity),
+    /// 3: an entry that lacks its required member `type` (C05: a nested structure without a required member is never accepted)
     kind: u8,
 }
 
@@ -47,7 +48,7 @@ impl<'de> MapAccess<'de> for ParamMap {
             0 => seed
                 .deserialize(BorrowedStrDeserializer::new("alg"))
                 .map(Some),
-            1 => seed
+            1 if self.0.kind != 3 => seed
                 .deserialize(BorrowedStrDeserializer::new("type"))
                 .map(Some),
             _ => Ok(None),
@@ -107,14 +108,17 @@ impl<'de, 'a> SeqAccess<'de> for ParamSeq<'a> {
     }
 }
 
-fn params_case<const N: usize>(allow_long: bool) {
+/// mode 0: kinds {0, 1};  mode 1: kinds {0, 1, 2, 3};  mode 2: kinds {0, 1, 3} (no 33-byte strings, cheap)
+fn params_case<const N: usize>(mode: u8) {
+    let allow_long = mode == 1;
     assert!(LONG_TYPE.len() == 33);
     let mut items = [Param { alg: 0, kind: 0 }; N];
     let mut i = 0;
     let mut any_long = false;
     while i < N {
         let kind: u8 = kani::any();
-        kani::assume(kind < if allow_long { 3 } else { 2 });
+        kani::assume(kind < if mode == 0 { 2 } else { 4 });
+        kani::assume(mode != 2 || kind != 2);
         items[i] = Param { alg: kani::any(), kind };
         i += 1;
     }
@@ -132,13 +136,13 @@ fn params_case<const N: usize>(allow_long: bool) {
             want[w] = items[i].alg;
             w += 1;
         }
-        any_long = any_long || items[i].kind == 2;
+        any_long = any_long || items[i].kind >= 2;
         i += 1;
     }
     match r {
         Ok(f) => {
             // C12: a type string of 33 bytes is beyond the declared capacity and must reject the list
-            assert!(!any_long, "C12/C14: an algorithm-parameter type string of 33 bytes was accepted");
+            assert!(!any_long, "C12/C05/C14: an entry with a 33-byte type string, or without its required member `type`, was accepted");
             assert!(f.0.len() == w, "C14: wrong number of known parameters kept");
             // the whole list must be read: elements left in the stream would be taken for the next map key of the request
             assert!(consumed.get() == n + 1, "C14/C01: the parameter list was not read to its end");
@@ -153,26 +157,35 @@ fn params_case<const N: usize>(allow_long: bool) {
     }
     kani::cover!(N < 2 || (w == 2 && n == N && !any_long));
     kani::cover!(w == 0 && n == N && !any_long);
-    kani::cover!(!allow_long || any_long);
+    kani::cover!(mode == 0 || any_long);
+    kani::cover!(mode == 0 || N < 3 || (any_long && n == N && items[0].kind == 0 && items[1].kind == 0 && (items[0].alg == -7) && (items[1].alg == -8) && items[2].kind == 3));
 }
 
 #[kani::proof]
 #[kani::unwind(14)]
 pub fn c14_k_filtered_params_upto3() {
-    params_case::<3>(false);
+    params_case::<3>(0);
 }
 
 /// same loop, entries may also carry a 33-byte type string (C12: one beyond the 32-byte capacity => rejected)
 #[kani::proof]
 #[kani::unwind(36)]
 pub fn c14_k_filtered_params_type_capacity() {
-    params_case::<1>(true);
+    params_case::<1>(1);
+}
+
+/// a malformed entry (required member `type` missing) at ANY position of a list of up to 3 entries rejects the list -
+/// in particular behind two known entries, where the value of the result no longer depends on it
+#[kani::proof]
+#[kani::unwind(14)]
+pub fn c14_k_filtered_params_malformed_entry_anywhere() {
+    params_case::<3>(2);
 }
 
 #[kani::proof]
 #[kani::unwind(14)]
 pub fn c14_k_filtered_params_upto6() {
-    params_case::<6>(false);
+    params_case::<6>(0);
 }
 
 // ------------------------------------------------------------ a list of attestation formats
